@@ -3,10 +3,10 @@
    a third version is chosen by the step; VerCmp must be a total preorder whose equality is
    syntactic on this (single-spelling) domain, and parsing must invert rendering.           *)
 EXTENDS GlsaVer, TLC
-CONSTANT Level      \* 1: 36 versions (quick), 2: 144 versions (thorough)
+CONSTANT Level      \* 1: 36 versions (quick), 2: 108 versions (thorough)
 S(k, n) == [k |-> k, n |-> n]
 NumsPool == IF Level = 1 THEN {<<<<"1">>>>, <<<<"1", "0">>>>, <<<<"1">>, <<"2">>>>}
-            ELSE {<<<<"1">>>>, <<<<"1", "0">>>>, <<<<"1">>, <<"2">>>>, <<<<"1">>, <<"1", "0">>>>}
+            ELSE {<<<<"1">>>>, <<<<"1">>, <<"2">>>>, <<<<"1">>, <<"1", "0">>>>}
 SufPool == IF Level = 1 THEN {<<>>, <<S("alpha", <<>>)>>, <<S("p", <<"1">>)>>}
            ELSE {<<>>, <<S("alpha", <<>>)>>, <<S("rc", <<"1">>)>>, <<S("p", <<>>)>>,
                  <<S("p", <<"1">>), S("alpha", <<>>)>>, <<S("alpha", <<>>), S("p", <<"2">>)>>}
